@@ -206,6 +206,31 @@ Proof.
   intros o0 h'. rewrite (Hx h). destruct rx; simpl; intros H0; inversion H0; reflexivity.
 Qed.
 
+(* nilValReturn: inside `if x == k { ... }` a side-effect-free x evaluates again to a value equal to k, without
+   events (k: any operand that yields the same value at every history, as nil does) *)
+Theorem nil_val_return_nil en x k vk h h1 :
+  env_ok en -> sef_typed x = true -> (forall h', evalS en k h' = Some (RVal vk, h')) ->
+  evalS en (EBinary OEq x k) h = Some (RVal (VBool true), h1) ->
+  h1 = h /\ exists v, evalS en x h1 = Some (RVal v, h1) /\ cmp_val OEq v vk = Some true.
+Proof.
+  intros Hen S Hk E.
+  destruct (no_opaque_pure en x (sef_typed_no_opaque x S)) as [rx Hx].
+  rewrite (eval_cmp_generic en OEq x k h eq_refl), (Hx h) in E.
+  destruct rx as [[v1|]|]; simpl in E; try discriminate.
+  rewrite (Hk h) in E. simpl in E.
+  destruct (cmp_val OEq v1 vk) as [[]|] eqn:C; simpl in E; try discriminate.
+  inversion E; subst h1. split; [reflexivity|]. exists v1. split; [apply (Hx h)|exact C].
+Qed.
+
+Theorem nil_val_return_flagged_pure s : nil_val_return s = true ->
+  sef_typed (nvr_x s) = true /\ In (Some (nvr_x s)) (nvr_results s).
+Proof.
+  unfold nil_val_return. intros H. repeat (apply andb_true_iff in H as [H ?]).
+  split; [assumption|].
+  match goal with E : existsb _ _ = true |- _ => apply existsb_exists in E as (r & Hin & Hr) end.
+  destruct r as [e|]; [|discriminate]. apply expr_eqb_eq in Hr. subst e. exact Hin.
+Qed.
+
 (* why == != <= >= are exempted for float operands: x == x is not a tautology *)
 Theorem dup_float_exemption_needed :
   cmp_val OEq (VFloat FNaN) (VFloat FNaN) = Some false /\ cmp_val ONe (VFloat FNaN) (VFloat FNaN) = Some true /\
